@@ -270,6 +270,13 @@ def modifications(msg, other, own_other, params):
     out += [("truncate 1", msg[:-1]), ("truncate to side", msg[:1]), ("empty", b""), ("extend 00", msg + b"\x00"),
             ("extend ff", msg + b"\xff"), ("duplicate body", msg + msg[1:]), ("append peer body", msg + other[1:]),
             ("prepend 00 to body", msg[:1] + b"\x00" + msg[1:])]
+    # bytes removed / inserted / moved at each kind of position (side byte, first and last body byte, middle)
+    for pos in (0, 1, 2, len(msg) // 2, len(msg) - 2):
+        out.append(("remove byte %d" % pos, msg[:pos] + msg[pos + 1:]))
+        out.append(("remove byte %d, append 00" % pos, msg[:pos] + msg[pos + 1:] + b"\x00"))
+        out.append(("insert 00 before byte %d" % pos, msg[:pos] + b"\x00" + msg[pos:]))
+    out += [("remove first two bytes", msg[2:]), ("rotate left", msg[1:] + msg[:1]), ("swap first two bytes", msg[1:2] + msg[:1] + msg[2:]),
+            ("side byte doubled", msg[:1] + msg)]
     for nm, el in (("identity", g.Zero), ("generator", g.Base), ("M", params.M), ("N", params.N), ("S", params.S),
                    ("2*element", None)):
         try:
